@@ -1711,6 +1711,26 @@ impl<'a> Gen<'a> {
                 body.push(S::Return(None));
             }
         } else {
+            if self.pct(22) {
+                // the function's way out stands at the end of a loop body: `loop { ..exits..; return e }; return e2`
+                // (a `break` leaves the loop and reaches the final return, a `continue` starts the next pass, bounded by the counter)
+                let k = self.counter_name();
+                let limit = self.rng.range(1, 3);
+                self.declare(&k, Ty::mutc(Ty::Int));
+                body.push(S::Let(k.clone(), Box::new(S::Expr(E::MutInf(Ty::Int, Box::new(E::Int(0)))))));
+                self.push();
+                let mut lb = vec![
+                    S::Expr(E::Bin("+=", Box::new(E::Var(k.clone())), Box::new(E::Int(1)))),
+                    S::If(E::Bin(">=", Box::new(E::Un("*", Box::new(E::Var(k)))), Box::new(E::Int(limit))), Box::new(S::Block(vec![S::Break])), None),
+                ];
+                lb.extend(self.loop_body(depth.min(2)));
+                let (e, _) = self.expr(&ret, 1);
+                lb.push(S::Return(Some(Box::new(S::Expr(e)))));
+                self.pop();
+                self.tag("stm:loop-ending-in-return");
+                let as_while = self.pct(30);
+                body.push(if as_while { S::While(E::Bool(true), Box::new(S::Block(lb))) } else { S::Loop(Box::new(S::Block(lb))) });
+            }
             let (s, _) = self.value_stm(&ret, depth.min(2));
             body.push(S::Return(Some(Box::new(s))));
         }
